@@ -198,6 +198,17 @@ func runC11(t *testing.T, tape *sim.Tape, tier string) *Outcome {
 			protoReqs = append(protoReqs, g.Next(i, 0, 0))
 		}
 	}
+	// one pipeline in six holds a variadic request with 17..48 arguments (wider than anything a parser may keep in
+	// a small fixed or pooled element table), cut like every other request
+	if tape.Draw(6, "widereq") == 5 {
+		at := tape.Draw(len(protoReqs)+1, "wideat")
+		wreq := wl.WideRequest(at, 17+tape.Draw(32, "width"))
+		protoReqs = append(protoReqs[:at], append([]*wl.Req{wreq}, protoReqs[at:]...)...)
+		for i, r := range protoReqs {
+			r.Idx = i
+		}
+		o.stat("pipelines_with_a_wide_request", 1)
+	}
 	// one pipeline in eight ends with a large text value (70 KB, CRLF-terminated lines): its cuts are sampled at
 	// structural places (after embedded line ends, around powers of two of the payload, in the terminator)
 	bigMode := tape.Draw(8, "bigvalue") == 7
@@ -452,7 +463,7 @@ func init() {
 	register(&Check{
 		ID: "C11", Bubble: true, Run: runC11,
 		Runs:   map[string]int{"quick": 176, "thorough": 5000},
-		Rule:   "per generated pipeline (1..4 valid requests, <= 420 bytes, in a quarter of them some arguments sent as simple strings): every byte offset 0..len x {half-close, close, reset, reset whose error only one read reports (then end of stream, as on Linux)} x 2 delivery schedules (whole prefix, seeded chunking), plus one reset per offset that drops a drawn amount of undelivered bytes - enumerated completely per pipeline; one pipeline in eight instead ends with a 70 KB text value of CRLF-terminated lines whose cuts are sampled at structural places (after embedded line ends, around powers of two of the payload, inside the terminator); every second run goes through the TLS port instead: a real crypto/tls client (1.2 or 1.3) writes a pipeline of complete requests, optionally a partial one, and ends its stream at once (close_notify or close right behind the last record); pipelines are sampled; distinct = distinct (pipeline, offset, end mode, schedule, drop) tuples; every case ends a stream so all are non-trivial",
+		Rule:   "per generated pipeline (1..4 valid requests, <= 420 bytes, in a quarter of them some arguments sent as simple strings, one in six with an additional request of 17..48 arguments): every byte offset 0..len x {half-close, close, reset, reset whose error only one read reports (then end of stream, as on Linux)} x 2 delivery schedules (whole prefix, seeded chunking), plus one reset per offset that drops a drawn amount of undelivered bytes - enumerated completely per pipeline; one pipeline in eight instead ends with a 70 KB text value of CRLF-terminated lines whose cuts are sampled at structural places (after embedded line ends, around powers of two of the payload, inside the terminator); every second run goes through the TLS port instead: a real crypto/tls client (1.2 or 1.3) writes a pipeline of complete requests, optionally a partial one, and ends its stream at once (close_notify or close right behind the last record); pipelines are sampled; distinct = distinct (pipeline, offset, end mode, schedule, drop) tuples; every case ends a stream so all are non-trivial",
 		Real:   []string{"redis.Server connection loop, parser, dispatch, executors, connection registry"},
 		Stub:   []string{"transport: simulated net.Conn with FIN / full close / RST", "handler: recording double"},
 		Assume: []string{"the expected handler calls of a completely received request are those of the fault-free run of the same pipeline"},
